@@ -26,6 +26,8 @@ def floors(tier):
          'repeat_calls_checked': 2000, 'interleaved_other_calls': 300}
     for k in KINDS:
         f['repeat_kind_' + k] = 100
+    f['repeat_calls_that_raised_at_run_time'] = 200
+    f['completed_generations_checked_for_duplicates'] = 1000
     for o in ALL:
         f['op_' + o] = 15 if tier == 'quick' else 80
     return f
@@ -103,12 +105,25 @@ def run_shard(shard, ctx):
                 continue
             regs = regfuncs(alg)
             ctx.count('algebras')
+            mark = len(ge.completed)
             for op in ALL:
                 for _ in range(unit['per_op']):
                     if ctx.out_of_time():
                         ctx.count('cases_skipped_out_of_time')
                         return
                     one_case(ctx, ge, alg, regs, cfg, name, op)
+            # whole-history invariant: on this algebra no (operator / registered function, key pattern) was generated twice,
+            # whoever asked for it (direct call, another operator's code generation, an outer registered function)
+            seen = {}
+            for rec in ge.completed[mark:]:
+                if rec[0] != id(alg):
+                    continue
+                seen[rec[1:]] = seen.get(rec[1:], 0) + 1
+            ctx.count('completed_generations_checked_for_duplicates', sum(seen.values()))
+            dups = [(k[1], [list(x) if not isinstance(x, int) else x for x in k[2]], n) for k, n in seen.items() if n > 1]
+            if dups:
+                ctx.violation('the same operator and key pattern was generated more than once on one algebra', [name, 'duplicates'], config=cfg,
+                              duplicates=[[d[0], repr(d[1])[:120], d[2]] for d in dups[:8]], n_duplicates=len(dups))
     finally:
         ge.uninstall()
         for k, v in ge.evaluations.items():
@@ -142,7 +157,10 @@ def one_case(ctx, ge, alg, regs, cfg, name, op):
     pattern = tuple(keysets) if arity == 2 or op in REG else keysets[0]
 
     def call(kind, tag):
-        if kind == 'same-values':
+        if kind == 'raising-None':
+            # coefficients on which the generated function raises at run time (arithmetic on None): the cache entry must survive that
+            vals = [[None for _ in ks] for ks in keysets]
+        elif kind == 'same-values':
             vals = [[1 + i for i, _ in enumerate(ks)] for ks in keysets]
         else:
             vals = [values(rng, alg, ks, kind, f'{tag}{j}_') for j, ks in enumerate(keysets)]
@@ -184,6 +202,7 @@ def one_case(ctx, ge, alg, regs, cfg, name, op):
         ctx.sample({'config': name, 'op': op, 'keys': [list(k) for k in keysets], 'first_call_events': d, 'first_call_cache_growth': growth})
     kinds = list(KINDS)
     rng.shuffle(kinds)
+    kinds.insert(rng.randint(1, 3), 'raising-None')
     for j, kind in enumerate(kinds):
         if op in REG and kind in ('sympy', 'mixed') and op != 'reg_symbolic':
             continue    # numerically registered functions are documented for numeric input; symbolic operands are another use
@@ -201,6 +220,8 @@ def one_case(ctx, ge, alg, regs, cfg, name, op):
             ctx.note_raised(out, f'{op}-{kind}')
         ctx.count('repeat_calls_checked')
         ctx.count('repeat_kind_' + kind)
+        if kind == 'raising-None' and st == 'exc':
+            ctx.count('repeat_calls_that_raised_at_run_time')
         if any(d.values()) or growth:
             ctx.violation('code generated again for a cached key pattern', cid + [kind], config=cfg, op=op,
                           keys=[list(k) for k in keysets], coefficient_kind=kind, events={k: v for k, v in d.items() if v},
